@@ -33,16 +33,30 @@ func Range(start, end, step int) SortedInts {
 		return []int{}
 	}
 
-	if end < start {
-		//The elements are start, start+step, ... > end. List them in ascending order.
-		step = -step
-		first := start - ((start-end-1)/step)*step
-		start, end = first, start+1
+	//The number of elements is ceil(|end - start| / |step|). The differences are taken as uints so that they cannot overflow (the negation of the smallest int is itself and converts to the correct magnitude).
+	var dist, size uint
+	if end > start {
+		dist, size = uint(end)-uint(start), uint(step)
+	} else {
+		dist, size = uint(start)-uint(end), uint(-step)
 	}
-
-	tmp := make([]int, 0, (end-start+step-1)/step)
-	for i := start; i < end; i += step {
-		tmp = append(tmp, i)
+	tmp := make([]int, (dist-1)/size+1)
+	//The elements are start, start+step, ... List them in ascending order. The value after the last element is never computed as it may not be an int.
+	v := start
+	if step > 0 {
+		for i := range tmp {
+			tmp[i] = v
+			if i < len(tmp)-1 {
+				v += step
+			}
+		}
+	} else {
+		for i := len(tmp) - 1; i >= 0; i-- {
+			tmp[i] = v
+			if i > 0 {
+				v += step
+			}
+		}
 	}
 	return tmp
 }
